@@ -17,7 +17,8 @@
      write  session_manager.go:79-94   record[key] -> that connection's activeMsgChan, else ErrNotExistKey
      reader connection.go:111-124      join on the first handled message while !join; c.key only on success;
                                        OnJoinEvent(msg, key, err); return (-> stop) on _errKeyExist
-     stop   connection.go:174-186      leaveFunc(c.key); OnLeaveEvent(c.key)   (c.key = "" if never joined)
+     stop   connection.go              if c.joined { leaveFunc(c.key) }; OnLeaveEvent(c.key)   (c.key = "" if never joined)
+                                       (fix 8f7d690; before it leaveFunc(c.key) was unconditional: [step_before_fix])
 
    Keys are numbers; 0 stands for the empty string "" (the zero value of c.key). *)
 From Coq Require Import List NArith Bool.
@@ -75,7 +76,16 @@ Fixpoint set_nth {A} (n : nat) (x : A) (l : list A) : list A :=
 (* the key a connection leaves with: c.key *)
 Definition ckey (s : cstate) : key := match s with CJoined k => k | _ => 0 end.
 
-Definition step (s : st) (ch : choice) : option (st * list obs) :=
+(* what the end of a connection in state cs does to the map.  guarded = the code as it is (a connection
+   that never joined does not call leave); not guarded = the code before fix 8f7d690, where every ending
+   connection called leave(c.key), a never-joined or refused one therefore leave("") *)
+Definition leave_reg (guarded : bool) (cs : cstate) (r : list (key * conn)) : list (key * conn) :=
+  match cs with
+  | CJoined k => del k r
+  | _ => if guarded then r else del 0 r
+  end.
+
+Definition step_v (guarded : bool) (s : st) (ch : choice) : option (st * list obs) :=
   match ch with
   | Connect =>
       Some ({| reg := reg s; conns := conns s ++ [CNew]; ncall := ncall s |}, [])
@@ -106,7 +116,7 @@ Definition step (s : st) (ch : choice) : option (st * list obs) :=
       match nth_error (conns s) c with
       | Some CDone | None => None
       | Some cs =>
-          Some ({| reg := del (ckey cs) (reg s); conns := set_nth c CDone (conns s); ncall := ncall s |},
+          Some ({| reg := leave_reg guarded cs (reg s); conns := set_nth c CDone (conns s); ncall := ncall s |},
                 [OLeave c (ckey cs)])
       end
   | Send k =>
@@ -118,19 +128,15 @@ Definition step (s : st) (ch : choice) : option (st * list obs) :=
       end
   end.
 
+Definition step := step_v true.
+Definition step_before_fix := step_v false.
+
 Definition run_reg := run step.
 
 (* ---------------- what the property talks about ---------------- *)
 
 (* connection c is live and joined with key k *)
 Definition owner (s : st) (c : conn) (k : key) : Prop := nth_error (conns s) c = Some (CJoined k).
-
-(* KeyFunc never yields the empty string (true of the default KeyFunc: the BCD rendering
-   of a 6- or 10-byte phone field is never empty) *)
-Definition nonempty_key (ch : choice) : Prop :=
-  match ch with FirstMsg _ k => k <> 0 | _ => True end.
-Definition nonempty_keyb (ch : choice) : bool :=
-  match ch with FirstMsg _ k => negb (k =? 0) | _ => true end.
 
 (* the callbacks one connection sees, in order *)
 Inductive cb := CbJoin (k : key) (e : N) | CbLeave (k : key).
